@@ -71,6 +71,46 @@ Lemma gen_add_cap_agree :
   gexpr_eqb gen_add_cap_cond (GSee "len(lst.errs) >= lst.Max") = true.
 Proof. vm_compute. reflexivity. Qed.
 
+(** ErrorList.Add, statement order: the model's [p_add] sets the jail flag
+    on every call, also when the list already holds [max_errs] errors and the
+    error is dropped (Jsonx/Parse.v [p_add], Jsonx/ParseProofs.v
+    [p_add_always_jails]); every recovery loop of the parser relies on it.
+    The source must set [inJail] before the early return of a full list. *)
+Lemma gen_add_sets_jail_before_cap_return : sets_jail_always gen_add_skeleton = true.
+Proof. vm_compute. reflexivity. Qed.
+
+Lemma gen_add_capped : capped_append gen_add_skeleton = true.
+Proof. vm_compute. reflexivity. Qed.
+
+Lemma gen_add_skeleton_frozen :
+  gen_add_skeleton = [ANilPanic; ASetJail; ACapReturn; AAppend].
+Proof. vm_compute. reflexivity. Qed.
+
+(** The error state is read and reset only through these one-line helpers. *)
+Lemma gen_error_state_helpers_agree :
+  gen_error_state_helpers =
+  [ ("ErrorList.InJail", "return lst.inJail");
+    ("ErrorList.BailOut", "lst.inJail = false");
+    ("ErrorList.Jail", "lst.inJail = true");
+    ("ErrorList.Errorf", "lst.Add(&Error{p, fmt.Errorf(f, args...), """"})");
+    ("ErrorList.CodeErrorf", "lst.Add(&Error{p, fmt.Errorf(f, args...), c})");
+    ("Parser.InError", "return p.errs.InJail()");
+    ("Parser.BailOut", "p.errs.BailOut()");
+    ("Parser.Jail", "p.errs.Jail()");
+    ("Parser.Errorf", "p.errs.CodeErrorf(pos, """", f, args...)");
+    ("Parser.CodeErrorf", "p.errs.CodeErrorf(pos, c, f, args...)") ].
+Proof. vm_compute. reflexivity. Qed.
+
+(** The places that test the error state are the ones the model has:
+    Expect, ExpectLit, SkipErrStmt, expectOp, the two entry loops, and the
+    per-entry check of DecodeSeries. *)
+Lemma gen_error_state_tests_agree :
+  gen_error_state_tests =
+  [ ("Parser.InError", 1%N); ("Parser.ExpectLit", 1%N); ("Parser.Expect", 1%N);
+    ("Parser.SkipErrStmt", 1%N); ("Decoder.DecodeSeries", 1%N);
+    ("parseObjectEntries", 1%N); ("parseListEntries", 1%N); ("parser.expectOp", 1%N) ].
+Proof. vm_compute. reflexivity. Qed.
+
 (** SkipErrStmt: the loop runs exactly while the current token is neither the
     separator nor EOF (all four valuations), and its body is [p.Next()]. *)
 Definition skip_cond_ok (e : gexpr) : bool :=
